@@ -85,6 +85,9 @@ fn items(prop: &str) -> Option<Vec<Item>> {
         "C08" => race::c08(),
         "C12" => chan::c12(),
         "C14" => chan::c14(),
+        "C15" => race::c08(),
+        "C17" => sims::c17(),
+        "C18" => race::c08(),
         "C19" => sims::c19(),
         _ => return None,
     })
